@@ -1989,6 +1989,7 @@ func init() {
 		if !assignable(rvType(x), et) {
 			reflectPanic("reflect.Value.Send: value of type %s is not assignable to type %s", typeString(rvType(x)), typeString(et))
 		}
+		e.schedPoint("send") // (another goroutine may act between a preceding check - Len() < Cap() - and this send)
 		e.chanSend(e.rvLoad(v).(*channel), boxFor(rvType(x), et, e.rvLoad(x)))
 		return nil
 	})
